@@ -4,14 +4,14 @@ QUICK_RUNS = 9600
 THOROUGH_BUDGET_S = 600
 RULE = (
     "seeded scenarios: one streaming reduction (collapse, bandpass, read_chan, dedisperse, compute_stats, "
-    "compute_stats_basic) evaluated under two different gulps on a FilReader over 1-2 harness-written files (depth "
+    "compute_stats_basic) evaluated twice on ONE FilReader object (two different gulps on the same window, or - 35% - a second, shifted or different window; 30% of runs first make 1-2 unrelated calls - compute_stats, collapse, bandpass, read_block on other ranges - on that reader) over 1-2 harness-written files (depth "
     "1,2,4,8,32; small integer samples so float32 sums are exact), for generated (start,nsamps) and DMs with "
     "0<=maxdelay<nsamps; each result is compared with the in-memory definition on samples [start,start+nsamps) and the "
     "two gulps with each other; fault runs add R1/R2 on input reads. Non-trivial = a reduction returned and was "
     "compared; distinct = distinct event-log digests among those."
 )
 PROBES = [">=3-blocks", "partial-last-block", "sub-range-before-EOF", "dedisperse:gulp-raised-to-2maxdelay", "dedisperse:maxdelay>0",
-          "block-across-file-boundary", "fault-in-block>=1", "gulp>range", "two-gulps-compared", "sub-byte", "start>0"] + [
+          "block-across-file-boundary", "fault-in-block>=1", "gulp>range", "two-gulps-compared", "sub-byte", "start>0", "second-window-on-same-reader", "pre-history-call"] + [
     f"ok:{n}" for n in ["collapse", "bandpass", "read_chan", "dedisperse", "compute_stats", "compute_stats_basic"]]
 COMPONENTS = {
     "real": ["sigpyproc.base.Filterbank.{collapse,bandpass,read_chan,dedisperse,compute_stats,compute_stats_basic}",
